@@ -705,7 +705,7 @@ def _rename_result_temps(stmts):
                 stmts = _drop_self_copies([RA().visit(st) for st in stmts])
                 return _rename_result_temps(stmts)
         copies = [st for st, n in loads if isinstance(st, ast.Assign) and st.value is n and len(st.targets) == 1 and isinstance(st.targets[0], ast.Name)]
-        if len(copies) != len(loads):
+        if not copies:
             continue
         ys = {c.targets[0].id for c in copies}
         if len(ys) != 1:
@@ -719,9 +719,11 @@ def _rename_result_temps(stmts):
             if isinstance(st, ast.Assign) and len(st.targets) == 1 and isinstance(st.targets[0], ast.Name) and st.targets[0].id == t \
                     and isinstance(st.value, ast.Name) and st.value.id == y:
                 continue  # the temporary is initialised from y itself (a reassigned parameter): it is y's slot throughout
+            if st in copies:
+                continue
             for n in _own_exprs(st):
-                if isinstance(n, ast.Name) and n.id == y and not isinstance(n.ctx, ast.Store):
-                    bad = True
+                if isinstance(n, ast.Name) and n.id == y:
+                    bad = True  # y is touched by something other than the final copies: the temporary is not just y's slot
         if bad:
             continue
         # nothing raising between a definition and the next copy, except handlers of the try containing the definition
@@ -739,8 +741,10 @@ def _rename_result_temps(stmts):
                 h = hand[id(st)]
                 if h is not None and any(x is d for b in h.body for x in ast.walk(b)):
                     continue
-                if any(isinstance(x, ast.Call) for x in _own_exprs(st)):
-                    ok = False
+                # y is not mentioned by anything in between (checked above): assigning it earlier is unobservable inside the
+                # expansion; an exception leaving the expansion leaves y assigned earlier than before, which only a handler
+                # of the caller reading y could notice
+                pass
         if not ok:
             continue
 
